@@ -89,6 +89,8 @@ def gambit_case(cid, rng, t, st, c=None, interior=True, unnamed_rate=0.3):
     b = cli.FileGameBuilder(rng, c=c, interior=interior, unnamed_rate=unnamed_rate)
     fg = b.build(t)
     shown = cli.shuffle_presentation(fg, rng) if rng.random() < 0.7 else fg
+    if rng.random() < 0.5:
+        shown = cli.partial_names(shown, rng)
     text = cli.efg_text(shown, rng=rng)
     load_expr, rank = cli.coq_gambit_tree_expr(shown)
 
@@ -111,6 +113,14 @@ def gen_file_case(cid, rng, fmt=None, **kw):
     fmt = fmt or rng.choice(["json", "gambit"])
     t, st = gen_tree(rng, max_nodes=rng.choice([6, 15, 30, 50]), max_depth=rng.choice([3, 4, 6]), label_space=rng.choice([30, 1000]),
                      p_share=rng.choice([0.5, 0.8]), single_rate=rng.choice([0.1, 0.2]), max_actions=rng.choice([2, 3]))
+    if rng.random() < 0.25:
+        # an infoset with exactly tied actions (a duplicated action, or all actions alike): its strategy is decided by the
+        # "no positive regret" rule of the preset, which is where the presets differ besides their exponents
+        from .solvers import with_duplicate_action
+        from .gen import tree_stats
+        t2 = with_duplicate_action(rng, t)
+        if t2 is not None:
+            t, st = t2, dict(tree_stats(t2), shared_uses=st.get("shared_uses", 0), chance_shared_uses=st.get("chance_shared_uses", 0))
     # a third of the files use awkward names (spaces, quotes, backslashes, both cases, non-ASCII): same order, same game
     cli.FANCY = cli.ALPHABET if rng.random() < 0.33 else None
     try:
